@@ -326,6 +326,7 @@ pub struct Writer<W: io::Write> {
     inner: csv::Writer<W>,
     delimiter: char,
     terminator: String,
+    value_delimiter: u8,
 }
 
 impl Writer<fs::File> {
@@ -339,7 +340,7 @@ impl Writer<fs::File> {
 impl<W: io::Write> Writer<W> {
     /// Write to a given writer.
     pub fn new(writer: W, fileformat: GffType) -> Self {
-        let (delim, termi, _) = fileformat.separator();
+        let (delim, termi, vdelim) = fileformat.separator();
 
         Writer {
             inner: csv::WriterBuilder::new()
@@ -348,16 +349,35 @@ impl<W: io::Write> Writer<W> {
                 .from_writer(writer),
             delimiter: delim as char,
             terminator: String::from_utf8(vec![termi]).unwrap(),
+            value_delimiter: vdelim,
         }
     }
 
     /// Write a given GFF record.
     pub fn write(&mut self, record: &Record) -> csv::Result<()> {
+        // `MultiMap::iter()` yields only the first value of every key; all values have to be written.
+        // With a value delimiter (GFF3: `key=v1,v2`) the values of a key are joined, without one
+        // (GFF2/GTF2) the key is repeated (`key v1;key v2`), which is how the reader collects them.
         let attributes = if !record.attributes.is_empty() {
+            let value_delimiter = (self.value_delimiter as char).to_string();
             record
                 .attributes
-                .iter()
-                .map(|(a, b)| format!("{}{}{}", a, self.delimiter, b))
+                .iter_all()
+                .map(|(a, values)| {
+                    if self.value_delimiter == 0u8 {
+                        values
+                            .iter()
+                            .map(|b| format!("{}{}{}", a, self.delimiter, b))
+                            .join(&self.terminator)
+                    } else {
+                        format!(
+                            "{}{}{}",
+                            a,
+                            self.delimiter,
+                            values.iter().join(&value_delimiter)
+                        )
+                    }
+                })
                 .join(&self.terminator)
         } else {
             "".to_owned()
